@@ -33,8 +33,9 @@ RULE = ("random configurations (0-300 items incl. duplicates/None/falsy values; 
         "oracle. A run is non-trivial when >= 2 items were really pulled by >= 2 different threads; distinct = distinct "
         "(driver, #items, #threads, style, input kind, sequence of pulling threads in global pull order).")
 ASSUMPTIONS = [
-    "worker functions never raise and always exhaust the iterator they are handed (an exception inside a worker or a "
-    "worker that stops early is outside the statement)",
+    "worker functions exhaust the iterator they are handed (a worker that stops early is outside the statement); the only "
+    "raising worker judged is the 'poison' style: exactly one item makes ONE thread's worker raise while at least one other "
+    "thread survives - every item must still be pulled exactly once",
     "threads >= 1 (threads=0 with a non-empty input is not judged); items are never the snakeoil sentinel object",
     "'non-empty result': None, '', [], () produced by a worker may be present or absent in the returned deque; every other "
     "produced value must be there exactly as often as it was produced; for generator workers the results are the yielded values",
@@ -46,7 +47,7 @@ SHARDS = {"quick": 4, "thorough": 16}
 TIMEOUT = {"quick": 240, "thorough": 1500}
 MIN_EVALS = 100
 REQUIRED_COUNTERS = ("runs_map_async", "runs_regen_repository", "runs_threaded_trigger", "injected_yields",
-                     "runs_multi_thread_interleaved", "falsy_but_nonempty_results_produced")
+                     "runs_multi_thread_interleaved", "falsy_but_nonempty_results_produced", "runs_with_one_raising_worker")
 
 _TOOL = 4
 _EMPTY = (None, "", [], ())
@@ -235,8 +236,20 @@ def make_functor(style, log, yield_mod):
         log.produced.append(r)
         return r
 
+    def f_poison(it, *args, **kwds):
+        # one designated item makes the worker function raise out of its thread (what regen_iter does when the regen
+        # helper raises RuntimeError): that thread is gone, the items still queued belong to the surviving threads
+        t, rng = log.enter(args, kwds)
+        for x in log.consume(it, t, rng):
+            if x == POISON:
+                raise RuntimeError("poisoned item")
+        return None
+
     return {"gen": f_gen, "list": f_list, "tuple": f_tuple, "str": f_str, "none": f_none, "genempty": f_genempty,
-            "count": f_count, "flag": f_flag}[style]
+            "count": f_count, "flag": f_flag, "poison": f_poison}[style]
+
+
+POISON = "poison-item"
 
 
 STYLES = ["gen", "gen", "gen", "list", "tuple", "str", "none", "genempty", "count", "flag"]
@@ -290,6 +303,17 @@ def gen_cfg(rng, quick):
         "inject_p": rng.choice([0.0, 0.0, 0.1, 0.3, 0.7] if quick else [0.0, 0.1, 0.3, 0.7, 1.0]),
         "seed": rng.randrange(1 << 30),
     }
+    if rng.random() < 0.08 and n >= 3:
+        # exactly one poisoned item somewhere in the first two thirds, at least two threads: one thread dies, the rest
+        # must still drain the queue
+        cfg["style"] = "poison"
+        cfg["yield_mod"] = 0
+        cfg["threads"] = rng.randrange(2, 9)
+        items = [i for i in range(n)]
+        items[rng.randrange(0, max(1, (2 * n) // 3))] = POISON
+        cfg["items"] = items
+        if cfg["kind"] == "range":
+            cfg["kind"] = "list"
     return cfg
 
 
@@ -598,6 +622,8 @@ class Runner:
                 extra=sorted(extra.elements())[:10], n_extra=sum(extra.values()), n_results=len(res),
                 n_produced=len(produced))))
         if record:
+            if cfg.get("style") == "poison":
+                ctx.count("runs_with_one_raising_worker")
             if any(v is False or (type(v) is int and v == 0) for v in produced):
                 ctx.count("falsy_but_nonempty_results_produced")
             if obs["alive_after"]:
